@@ -554,6 +554,14 @@ def _ensemble(p):
         if kind == "orthonormal":
             U = _haar(rng, d, real)
             vecs = [U[:, i % d].copy() for i in range(n)]
+        elif kind.startswith("mixed-dtype"):
+            # one list, three numpy dtypes: an integer basis ket, a real superposition, then complex states
+            e = np.eye(d)
+            vecs = [e[0].copy(), (e[0] + e[1 % d]) / np.sqrt(2), (e[1 % d] + 1j * e[2 % d]) / np.sqrt(2)]
+            while len(vecs) < n:
+                v = rng.standard_normal(d) + 1j * rng.standard_normal(d)
+                vecs.append(v / np.linalg.norm(v))
+            vecs = vecs[:n]
         elif kind.startswith("pure"):
             vecs = []
             for _ in range(n):
@@ -569,6 +577,11 @@ def _ensemble(p):
                 passed = [v.reshape(-1, 1).copy() for v in vecs]
             else:
                 passed = [m.copy() for m in dms]
+            if kind.startswith("mixed-dtype"):
+                passed = [v.reshape(-1, 1).copy() for v in vecs] if kind.endswith("col") else ([m.copy() for m in dms] if kind.endswith("dm") else [v.copy() for v in vecs])
+                passed[0] = np.rint(passed[0].real).astype(np.int64)
+                if len(passed) > 1:
+                    passed[1] = np.ascontiguousarray(passed[1].real.astype(float))
         else:
             rank = 2 if kind == "mixed-rank2" else None
             dms = [_rand_density(rng, d, real, rank if (rank and rank < d) else None) for _ in range(n)]
@@ -1208,8 +1221,11 @@ def cases(tier, seed):
                     ens.append(dict(d=d, n=n, kind=kind, field=field, prior=prior, seed=seed + i))
     if thorough:
         ens = ens + [dict(e, seed=e["seed"] + 1000 * r, prior=priors[(j + r) % 4] if not ((e["kind"].startswith("pure") and e["n"] - 1 < e["d"]) or (e["kind"] == "mixed-rank2" and 2 * (e["n"] - 1) < e["d"])) else "random") for r in (1, 2) for j, e in enumerate(ens)]
+    for d_, n_ in ((2, 3), (3, 4), (3, 5)):
+        for kd in ("mixed-dtype-1d", "mixed-dtype-col", "mixed-dtype-dm"):
+            ens.append(dict(d=d_, n=n_, kind=kd, field="complex", prior="random", seed=seed + 77))
     for e in ens:
-        ic = "d=%d/%s/prior=%s" % (e["d"], "pure" if e["kind"].startswith("pure") else "mixed", e["prior"])
+        ic = "d=%d/%s/prior=%s" % (e["d"], ("mixed-dtype-list" if e["kind"].startswith("mixed-dtype") else "pure") if not e["kind"] == "mixed" and not e["kind"] == "mixed-rank2" else "mixed", e["prior"])
         nt = e["d"] >= 2
         add("pgm.is_povm", e, "pretty_good_measurement/" + ic, nt)
         add("pgm.formula", e, "pretty_good_measurement/" + ic, nt)
